@@ -58,10 +58,32 @@ def _r_worker(job):
     return res
 
 
+def _x_worker(job):
+    """kind X: exhaustive native execution of the real shim over its whole (<= 32-bit) argument space; complete by enumeration, not a deductive proof"""
+    t0 = time.time()
+    res = {'fn': job['fn'], 'variant': '', 'status': 'error', 'detail': '', 'clauses': {}, 'safety': [], 'inputs': {},
+           'seconds': 0, 'solver_s': 0, 'backend': 'native-exhaustive(g++ -O2)', 'log': '', 'kind': 'X'}
+    try:
+        b = G_BUILDS[job['build']]
+        c = job['_contract']
+        r = run_exhaustive(b, b.driver.shims[c.fn], c, job['workdir'], job['id'], nproc=job.get('nproc', 16), timeout=job['timeout'])
+        res.update({k: v for k, v in r.items() if k in ('status', 'detail', 'clauses', 'inputs', 'log')})
+        if r.get('status') == 'done':
+            res['clauses']['__canary'] = 'FAILURE' if r.get('checked', 0) > 0 else 'SUCCESS'   # vacuity: some argument satisfied the requires
+            res['checked'] = r['checked']
+            res['solver_s'] = round(r.get('seconds', 0), 2)
+    except Exception:
+        res['detail'] = 'exception: ' + traceback.format_exc()[-1500:]
+    res['seconds'] = time.time() - t0
+    return res
+
+
 def _job_worker(job):
     """translate in the worker (forked: G_BUILDS inherited), then run CBMC"""
     if job.get('kind') == 'R':
         return _r_worker(job)
+    if job.get('kind') == 'X':
+        return _x_worker(job)
     try:
         b = G_BUILDS[job['build']]
         roots = [job['fn_ir']] + job['uses_ir']
@@ -280,6 +302,11 @@ class Prop:
                     ens.append((name, e))
             ckey = c.fn + '@' + c.build
             jid0 = re.sub(r'[^A-Za-z0-9_]', '_', c.fn)[:80] + '_' + hashlib.md5(ckey.encode()).hexdigest()[:6]
+            if c.kind == 'X':
+                jobs.append({'kind': 'X', 'id': jid0, 'key': ckey, 'fn': c.fn, 'build': c.build, '_contract': c, 'timeout': max(c.timeout, 1800) if tier != 'quick' else c.timeout,
+                             'workdir': wd, 'nproc': NPROC})
+                jobmeta[ckey] = (c, sig, ens, fnd)
+                continue
             if c.kind == 'R':
                 jobs.append({'kind': 'R', 'id': jid0, 'key': ckey, 'fn': c.fn, 'll': b.ll, 'sig': sig, 'requires': c.requires, 'ensures': ens,
                              'timeout': c.timeout, 'timeout_s': c.timeout, 'workdir': wd, 'flags': list(c.flags)})
